@@ -15,8 +15,9 @@ RULE = ("Model-based history generation: a generated graph of order 2..4 (plus a
         "equals the maximum, no other entry changed, accessor_to_latter_map(accessor) == latter map, the returned "
         "views equal the passed-in ones, and scores have the accessor's shape and are positive only on arcs. The "
         "whole flag sequence shrinks as one value. Non-trivial: >= 3 removals and some vertex lost its last arc.")
-ASSUMPTIONS = ["the score of an arc is whatever calculate_intersection_score returns for the same flags on the graph "
-               "before the call (the statement does not define the formula)",
+ASSUMPTIONS = ["the intersection score is the quantity the pinned implementation and its doctest values define (sizes of "
+               "unions of (k-1)-step leaf sets for substitution pairs, insertion and deletion); reference_scores() "
+               "re-derives it on Python sets and the library's scores must equal it exactly",
                "accessor_to_latter_map is the reference for 'describe the same graph' (its own correctness is C14)"]
 
 
@@ -44,6 +45,41 @@ def histories(draw, tier):
             "layout": draw(st.sampled_from([None, None, None, "F", "strided", "offset"]))}
 
 
+def reference_scores(rows, k, has_insertion, has_deletion):
+    """The intersection score as the pinned implementation defines it, re-derived on Python sets: with L(x) the set
+    of end points of all (k-1)-step walks from x, an arc u->v collects |L(v) U L(v')| for every other arc u->v' of u,
+    (insertion) |L(v) U L(w)| for every arc v->w, and (deletion) |L(v) U L(u)|."""
+    table = o.succ_table(k)
+    n = len(rows)
+    depth = k - 1
+    leaves = {}
+
+    def leaf_set(x):
+        if x not in leaves:
+            level = {x}
+            for _ in range(depth):
+                level = {table[u][j] for u in level for j in o.live(rows, u)}
+            leaves[x] = level
+        return leaves[x]
+
+    scores = [[0, 0, 0, 0] for _ in range(n)]
+    for u in range(n):
+        arcs = o.live(rows, u)
+        for a in range(len(arcs)):
+            for b in range(a + 1, len(arcs)):
+                size = len(leaf_set(table[u][arcs[a]]) | leaf_set(table[u][arcs[b]]))
+                scores[u][arcs[a]] += size
+                scores[u][arcs[b]] += size
+        for j in arcs:
+            v = table[u][j]
+            if has_insertion:
+                for jj in o.live(rows, v):
+                    scores[u][j] += len(leaf_set(v) | leaf_set(table[v][jj]))
+            if has_deletion:
+                scores[u][j] += len(leaf_set(v) | leaf_set(u))
+    return scores
+
+
 def normal_map(latter_map):
     return {int(key): sorted(int(x) for x in values) for key, values in latter_map.items()}
 
@@ -67,6 +103,12 @@ def evaluate(case):
                           has_insertion=ins, has_deletion=dele)
         where = "step %d (has_insertion=%s, has_deletion=%s, k=%d, %d arcs left)" % (step, ins, dele, k, len(model))
         if not isinstance(scores, Raised):
+            current_rows = [sum(1 << j for j in range(4) if (u, table[u][j]) in model) for u in range(n)]
+            expected_scores = reference_scores(current_rows, k, ins, dele)
+            if tuple(scores.shape) == (n, 4) and scores.tolist() != expected_scores:
+                u = next(i for i in range(n) if scores[i].tolist() != expected_scores[i])
+                return bad("intersection scores of vertex %d are %r, the definition gives %r; %s"
+                           % (u, scores[u].tolist(), expected_scores[u], where), labels)
             if tuple(scores.shape) != (n, 4):
                 return bad("intersection scores have shape %r, the accessor has %r; %s"
                            % (tuple(scores.shape), (n, 4), where), labels)
